@@ -4,7 +4,8 @@ import Aergo.Model.Sync
 /-! Model driver for C17: `model-c17 < ops > out`. One answer line per operation line.
 Stateless lines: `bs`, `anchors`, `finder`, `vseq`. Stateful sessions (one of each kind is
 threaded through the lines): `hf …` (hash fetcher), `new/hs/sched/tick/chunk/add` (block fetcher +
-block processor), `svc …` (service session counter), `recv …` (P2P chunk receiver). -/
+block processor), `svc …` (service session counter), `sys …` (service with the session behind the
+sequence filter), `recv …` (P2P chunk receiver). -/
 open Aergo Aergo.DriverLib Aergo.Sync
 
 namespace C17Drv
@@ -95,6 +96,7 @@ structure D where
   st : Option St := none
   svc : Svc := Svc.init
   recv : Option Recv := none
+  sys : Sys Nat := Sys.init
 
 def showHF (h : HF) : String := s!"last={h.lastHash}/{h.lastNo} req={h.reqCount}"
 
@@ -114,6 +116,12 @@ def pKind : String → Option MsgKind
   | _ => none
 
 def showSvc (v : Svc) : String := s!"seq={v.seq} running={if v.running then 1 else 0} target={v.target}"
+
+def showSys (v : Sys Nat) : String := s!"seq={v.seq} running={if v.sess.isSome then 1 else 0} target={v.sess.getD 0}"
+
+def sysRecv (d : D) (m : Msg SysBody) : D × String :=
+  let v := Sys.recv sysStart sysHandle d.sys m
+  ({ d with sys := v }, showSys v)
 
 def showRecvErr : RecvErr → String
   | .remotePeerFail => "remotepeerfail" | .missingHash => "missinghash" | .tooMany => "toomany"
@@ -230,6 +238,25 @@ def stepLine (d : D) (line : String) : D × String :=
       let v := d.svc.finderFail seq
       ({ d with svc := v }, showSvc v)
     | none => bad d
+  -- service with the whole session behind the filter (`Sys`): the same real actions as the `svc` lines, plus
+  -- arbitrary message kinds with a stale or the current sequence
+  | ["sys", "new"] => ({ d with sys := Sys.init }, showSys Sys.init)
+  | ["sys", "start", target, best] =>
+    match target.toNat?, best.toNat? with
+    | some target, some best => sysRecv d ⟨.syncStart, 0, .start target best⟩
+    | _, _ => bad d
+  | ["sys", "stop", seq] =>
+    match seq.toNat? with
+    | some seq => sysRecv d ⟨.syncStop, seq, .none⟩
+    | none => bad d
+  | ["sys", "finderfail", seq] =>
+    match seq.toNat? with
+    | some seq => sysRecv d ⟨.finderResult, seq, .fail⟩
+    | none => bad d
+  | ["sys", "msg", kind, seq] =>
+    match pKind kind, seq.toNat? with
+    | some k, some seq => if k == .syncStart then bad d else sysRecv d ⟨k, seq, .none⟩
+    | _, _ => bad d
   -- chunk receiver
   | ["recv", "new", hashes] =>
     match pNats hashes with
